@@ -178,7 +178,14 @@ def dump(
         serialize = getattr(obj, serialize_method)
         params, attrs = serialize()
         return_obj["__jsonclass__"].append(params)
-        return_obj.update(attrs)
+
+        # Ignored members are not transmitted
+        ignore_list = getattr(obj, ignore_attribute, []) + ignore
+        return_obj.update(
+            (key, value)
+            for key, value in attrs.items()
+            if key not in ignore_list
+        )
     elif utils.is_decimal(obj):
         # Add parameter for Decimal that works with JSON
         return_obj["__jsonclass__"].append([str(obj)])
